@@ -82,6 +82,18 @@ Theorem C10_strip_removes_all_whitespace : forall t,
 Proof. exact lstrip_spec. Qed.
 Print Assumptions C10_strip_removes_all_whitespace.
 
+(* the same on the other side: what a hyphen on an OPENING delimiter removes from the END of the preceding text is
+   whitespace only, and what remains ends with a non-space character (or is empty) *)
+Theorem C10_rstrip_removes_all_whitespace : forall t,
+  exists w, t = rstrip_s t ++ w /\ all_space w = true /\ stops (rev (rstrip_s t)).
+Proof. exact rstrip_spec. Qed.
+Print Assumptions C10_rstrip_removes_all_whitespace.
+
+(* stripping never removes more on a second pass: a stripped text has no whitespace left on that side *)
+Theorem C10_strip_idempotent : forall t, lstrip_s (lstrip_s t) = lstrip_s t /\ rstrip_s (rstrip_s t) = rstrip_s t.
+Proof. intros t. split; [exact (lstrip_idem t) | exact (rstrip_idem t)]. Qed.
+Print Assumptions C10_strip_idempotent.
+
 (* ---- the two defects of the unrepaired lexer, as witnesses against the same statement for [render_src_old] ---- *)
 (* {% raw %} x {% endraw -%}  y : endraw's marker ignored (the old code uses the raw tag's own marker) *)
 Definition raw_witness : template :=
